@@ -778,3 +778,108 @@ func init() {
 		}
 	}
 }
+
+// sizes: thresholds in the MIDDLE of the range (C03, C05, C07, C08, C01): list lengths next to every power of
+// two from 8 to 1024, encodings whose size passes 1024, 1500, 2048 and 4096 octets one octet (or one word) at
+// a time, and TWCC feedback whose received packets are described by two runs that meet next to such a length.
+func init() {
+	drivers["sizes"] = func(s *exec.State, g *gen.G, n int) {
+		lens := []int{7, 8, 9, 15, 16, 17, 31, 32, 33, 63, 64, 65, 127, 128, 129, 255, 256, 257, 511, 512, 513, 1023, 1024, 1025}
+		u32s := func(k int) abs.L { return g.U32s(k) }
+		for _, l := range lens {
+			if l <= 31 {
+				scriptRT(s, abs.V{"k": "SR", "ssrc": g.U32(), "ntp": g.U64(), "rtp": g.U32(), "pc": g.U32(), "oc": g.U32(), "reports": g.RBs(l), "ext": abs.L{}})
+				scriptRT(s, abs.V{"k": "RR", "ssrc": g.U32(), "reports": g.RBs(l), "ext": abs.L{}})
+				scriptRT(s, abs.V{"k": "BYE", "srcs": u32s(l), "reason": abs.L{}})
+				cs := make(abs.L, l)
+				for i := range cs {
+					cs[i] = abs.V{"src": g.U32(), "items": abs.L{abs.V{"t": 1, "text": g.Bytes(i % 5)}}}
+				}
+				scriptRT(s, abs.V{"k": "SDES", "chunks": cs})
+				fe := make(abs.L, l)
+				for i := range fe {
+					fe[i] = abs.V{"ssrc": g.U32(), "seq": g.U8()}
+				}
+				scriptRT(s, abs.V{"k": "FIR", "sender": g.U32(), "media": g.U32(), "fir": fe})
+			}
+			if l <= 255 {
+				scriptRT(s, abs.V{"k": "REMB", "sender": g.U32(), "br": g.Float(), "ssrcs": u32s(l)})
+				its := make(abs.L, 1)
+				its[0] = abs.V{"t": 1, "text": g.Bytes(l)}
+				scriptRT(s, abs.V{"k": "SDES", "chunks": abs.L{abs.V{"src": g.U32(), "items": its}}})
+				scriptRT(s, abs.V{"k": "BYE", "srcs": u32s(1), "reason": g.Bytes(l)})
+			}
+			ns := make(abs.L, l)
+			for i := range ns {
+				ns[i] = abs.V{"pid": (100*i + 7) % 65536, "blp": g.U16()}
+			}
+			scriptRT(s, abs.V{"k": "NACK", "sender": g.U32(), "media": g.U32(), "nacks": ns})
+			es := make(abs.L, l)
+			for i := range es {
+				es[i] = abs.V{"first": g.R.Intn(8192), "number": g.R.Intn(8192), "pic": g.R.Intn(64)}
+			}
+			scriptRT(s, abs.V{"k": "SLI", "sender": g.U32(), "media": g.U32(), "sli": es})
+			// XR: that many blocks, and one block with that many elements
+			bl := make(abs.L, l)
+			for i := range bl {
+				bl[i] = abs.V{"bt": "rrt", "ntp": g.U64()}
+			}
+			scriptRT(s, abs.V{"k": "XR", "sender": g.U32(), "blocks": bl})
+			rs := make(abs.L, l)
+			for i := range rs {
+				rs[i] = abs.V{"ssrc": g.U32(), "lrr": g.U32(), "dlrr": g.U32()}
+			}
+			ch := make(abs.L, l+l%2)
+			for i := range ch {
+				ch[i] = g.U16()
+			}
+			scriptRT(s, abs.V{"k": "XR", "sender": g.U32(), "blocks": abs.L{abs.V{"bt": "dlrr", "reports": rs},
+				abs.V{"bt": "lrle", "t": 0, "ssrc": g.U32(), "bs": 1, "es": 2, "chunks": ch}, abs.V{"bt": "prt", "t": 0, "ssrc": g.U32(), "bs": 1, "es": 2, "times": u32s(l)}}})
+			// CCFB: one block with that many metric blocks
+			mbs := make(abs.L, l)
+			for i := range mbs {
+				mbs[i] = abs.V{"r": true, "ecn": i % 4, "ato": (37 * i) % 8192}
+			}
+			scriptRT(s, abs.V{"k": "CCFB", "sender": g.U32(), "ts": g.U32(), "blocks": abs.L{abs.V{"media": g.U32(), "begin": 5, "mbs": mbs}}})
+			// TWCC: l received packets as one run, and as two runs that meet next to l
+			for _, a := range []int{0, 1, l - 100, l - 1} {
+				if a < 0 || a >= l {
+					continue
+				}
+				chunks := abs.L{}
+				if a > 0 {
+					chunks = append(chunks, abs.V{"ct": "rl", "typ": 0, "sym": 1, "run": a})
+				}
+				chunks = append(chunks, abs.V{"ct": "rl", "typ": 0, "sym": 1, "run": l - a})
+				ds := make(abs.L, l)
+				for i := range ds {
+					ds[i] = abs.V{"t": 1, "ticks": (i*7 + 1) % 256, "rem": 0, "big": 0}
+				}
+				v := abs.V{"k": "TWCC", "sender": g.U32(), "media": g.U32(), "base": 100, "count": l, "ref": abs.L{0, 1, 2, 3}, "fb": 1,
+					"chunks": chunks, "deltas": ds}
+				size := 20 + 2*len(chunks) + l
+				pad := (4 - size%4) % 4
+				v["hdr"] = abs.V{"p": pad > 0, "c": 15, "t": 205, "len": (size+pad)/4 - 1}
+				scriptRT(s, v)
+				// ... and the same with one more run that claims statuses beyond l
+				if a > 0 {
+					b := encodeWith(v)
+					if b != nil {
+						scriptTW(s, b)
+					}
+				}
+			}
+		}
+		// encodings that pass a size threshold octet by octet (free-form fields) or word by word
+		for _, t := range []int{1024, 1500, 2048, 4096} {
+			for d := -16; d <= 4; d++ {
+				scriptRT(s, abs.V{"k": "APP", "st": 1, "ssrc": g.U32(), "name": abs.L{78, 65, 77, 69}, "data": g.Bytes(t - 12 + d)})
+				if d%4 == 0 {
+					scriptRT(s, abs.V{"k": "SR", "ssrc": g.U32(), "ntp": g.U64(), "rtp": g.U32(), "pc": g.U32(), "oc": g.U32(), "reports": g.RBs(1), "ext": g.Bytes(t - 52 + d)})
+					scriptRT(s, abs.V{"k": "XR", "sender": g.U32(), "blocks": abs.L{abs.V{"bt": "unk", "type": 77, "ts": 1, "bytes": g.Bytes(t - 12 + d)}}})
+				}
+				scriptRT(s, abs.V{"k": "RR", "ssrc": g.U32(), "reports": g.RBs(1), "ext": g.Bytes(t - 32 + d)})
+			}
+		}
+	}
+}
